@@ -135,3 +135,80 @@ func c07BuildsShapes() []struct {
 	}
 	return out
 }
+
+// c07ManyShapes (round 6): MANY profiles on one side.  chunkedGrab fetches and combines the
+// sources (and, separately, the bases) 128 at a time and combines every further chunk with what it
+// has so far: tuple sizes around the chunk size and around its multiples - 127, 128, 129, 130,
+// 256, 257 - on the source side and on the base side.  Every profile lists only what it uses; the
+// LAST profile of a side has an entry of its own, so a dropped tail loses an entry, not only weight.
+func c07ManyShapes() []struct {
+	name string
+	t    *c07Tuple
+} {
+	tab := c07Table{funcs: []string{"main", "work", "idle", "last", "lastbase"}, locs: []c07Loc{
+		{id: 1, addr: 0x1000, lines: []int{0}}, {id: 2, addr: 0x1010, lines: []int{1}}, {id: 3, addr: 0x1020, lines: []int{2}},
+		{id: 4, addr: 0x1030, lines: []int{3}}, {id: 5, addr: 0x1040, lines: []int{4}}}}
+	mk := func(i int, unit string, own int) c07Prof {
+		p := c07Prof{types: [][2]string{{"samples", "count"}, {"cpu", unit}}, periodType: [2]string{"cpu", "ms"}, period: 1, sparse: true}
+		p.samples = append(p.samples, c07Sample{locs: []int{1, 0}, vals: []int64{int64(10 + i%3), int64(100 + i)}})
+		if i%7 == 0 {
+			p.samples = append(p.samples, c07Sample{locs: []int{2, 0}, vals: []int64{1, 0}})
+		}
+		if own >= 0 {
+			p.samples = append(p.samples, c07Sample{locs: []int{own, 0}, vals: []int64{5, 50}})
+		}
+		return p
+	}
+	side := func(n int, unitOf func(i int) string, own int) []c07Prof {
+		var ps []c07Prof
+		for i := 0; i < n; i++ {
+			o := -1
+			if i == n-1 {
+				o = own
+			}
+			ps = append(ps, mk(i, unitOf(i), o))
+		}
+		return ps
+	}
+	ms := func(int) string { return "ms" }
+	var out []struct {
+		name string
+		t    *c07Tuple
+	}
+	add := func(name string, srcs, bases []c07Prof, diff bool) {
+		out = append(out, struct {
+			name string
+			t    *c07Tuple
+		}{name, &c07Tuple{tab: tab, srcs: srcs, bases: bases, diffBase: diff}})
+	}
+	for _, n := range []int{127, 128, 129, 130, 256, 257} {
+		add("sum-"+c07Itoa(n), side(n, ms, 3), nil, false)
+	}
+	// the profile that starts the second chunk uses another unit of the family
+	add("sum-129-units", side(129, func(i int) string {
+		if i == 128 {
+			return "us"
+		}
+		return "ms"
+	}, 3), nil, false)
+	s130 := side(130, ms, 3)
+	add("base-130-minus-128", s130, append([]c07Prof(nil), s130[:128]...), false)
+	s129 := side(129, ms, 3)
+	add("base-129-minus-itself", s129, append([]c07Prof(nil), s129...), false)
+	add("diff-base-1-minus-129", side(1, ms, 3), side(129, ms, 4), true)
+	add("diff-base-2-minus-257", side(2, ms, 3), side(257, ms, 4), true)
+	add("base-129-minus-130", side(129, ms, 3), side(130, ms, 4), false)
+	return out
+}
+
+func c07Itoa(n int) string {
+	if n == 0 {
+		return "0"
+	}
+	s := ""
+	for n > 0 {
+		s = string(rune('0'+n%10)) + s
+		n /= 10
+	}
+	return s
+}
